@@ -10,6 +10,18 @@ REPO = "/repo"
 
 
 FIRST_MISSED = {
+    "C06f": "C06-X6 router-keeps-nothing (ordering-domain walk over the profit: the transfer is skipped only for a profit of exactly 0)",
+    "C08e": "C08-B2 weight helpers return and save the record they were given (nothing loaded from storage)",
+    "C08f": "C08-B5 the Unbonding query's cursor is an exclusive lower bound",
+    "C02e": "C02-T3 now includes V1 (every reader of pool balances subtracts the pending fees); C01-V1 caught it at first sight",
+    "C02f": "C02-T3 precondition of T1: every path storing pool_fees validates the whole triple (C18-store caught it at first sight)",
+    "C04e": "C04-V1 pool-side collection (C07-F3 / C10-Q6 caught it at first sight, now filed under C04 and C01 too)",
+    "C04f": "C04-A6 every StableSwap is built from the stored ramp and env.block.height (parameters resolved through the call sites)",
+    "C03e": "C03-Y6 floor-family rounding on the pair's deposit / withdrawal / swap paths (C01-V5 caught it at first sight)",
+    "C03f": "C03-Y5 Newton step operator tree (Ann*S + Dp*n)*d / ((Ann-1)*d + (n+1)*Dp) with Ann = amp*n (also C04-A5 for the 3pool)",
+    "C07e": "C07-F1 balance snapshot of flash_loan is the raw queried balance (C06-X2 caught it at first sight, now filed under C07 too)",
+    "C07f": "C07-F1 / C03-Y1 result-field mapping of compute_swap in BOTH pair-type arms (C02-T2 only covered the constant-product arm)",
+    "C05f": "C05-V7 settlement requires old balance + all three fees (C06-X3 caught it at first sight, now filed under C05 too)",
     "C06c": "C06-X6 initiator/loaned_assets threading (the CompleteLoan/NextLoan built by next_loan carry the handled NextLoan's initiator)",
     "C11c": "C11-K6 position lists are edited in place (update closures return the list they were given)",
     "C18c": "C18-vault-burn now requires the factory-asset/burn-share test to guard every path from new fees to CONFIG.save (was: operand only)",
